@@ -14,9 +14,9 @@ MANIFEST = {
     'technique': 'state-machine refinement (Coq) + recorded histories replayed through the model inside Coq',
 }
 PROPERTY_FILES = ['Properties/C09.v']
-REFUTED_FILES = []
-MODEL_FILES = ['SF/GrowOnly.v', 'SF/GrowOnlyVal.v']
-IMPORTS = 'Require Import SF.Prelude SF.Dtype SF.Value SF.GrowOnly SF.GrowOnlyVal.'
+REFUTED_FILES = ['Refuted/C09.v']
+MODEL_FILES = ['SF/GrowOnly.v', 'SF/GrowOnlyHier.v', 'SF/GrowOnlyShare.v', 'Gen/Gen_c09.v', 'SF/GrowOnlyWorld.v', 'SF/GrowOnlyVal.v']
+IMPORTS = 'Require Import SF.Prelude SF.Dtype SF.Value SF.GrowOnly SF.GrowOnlyHier SF.GrowOnlyShare Gen.Gen_c09 SF.GrowOnlyWorld SF.GrowOnlyVal.'
 RULE = 'TODO'
 ASSUMPTIONS = []
 TRUSTED = []
@@ -275,5 +275,1798 @@ def index_cases(ctx):
             yield emit('api:IndexGO-random', auto, labels, ops, look)
 
 
+# ----------------------------------------------------------------------------- FrameGO histories
+NAN = float('nan')
+
+
+def _fdt(fill):
+    if fill is None:
+        return np.dtype(object)
+    return np.array(fill).dtype
+
+
+def _arr(dtype, vals):
+    if np.dtype(dtype) == np.dtype(object):
+        a = np.empty(len(vals), dtype=object)
+        for i, v in enumerate(vals):
+            a[i] = v
+    else:
+        a = np.array(vals, dtype=dtype)
+    a.flags.writeable = False
+    return a
+
+
+def _blk_lit(a):
+    is2d = a.ndim == 2
+    cols = [a[:, j] for j in range(a.shape[1])] if is2d else [a]
+    return (f'(mk_blk {lit.dtype(a.dtype)} {lit.b(is2d)} {lit.z(a.shape[0])} '
+            f'{lit.lst([lit.vlist(lit.array_vals(c)) for c in cols])})')
+
+
+def _gvalue(v):
+    """value descriptor -> (python object, Coq literal)"""
+    import static_frame as sf
+    kind = v[0]
+    if kind == 'arr':
+        a = _arr(v[1], v[2])
+        return a, f'(GArr {lit.dtype(a.dtype)} {lit.vlist(lit.array_vals(a))})'
+    if kind == 'arr2':
+        return np.zeros((v[1], 2), dtype=np.int64), 'GArr2'
+    if kind == 'iter':
+        a = np.array(v[1])          # homogeneous by construction: NumPy's dtype is iterable_to_array_1d's
+        py = tuple(v[1]) if len(v) > 2 and v[2] == 'tuple' else list(v[1])
+        return py, f'(GIter {lit.dtype(a.dtype)} {lit.vlist(lit.array_vals(a))})'
+    if kind == 'scalar':
+        a = np.array(v[1])
+        return v[1], f'(GScalar {lit.dtype(a.dtype)} {lit.val(v[1])})'
+    if kind == 'series':
+        a = _arr(v[2], v[3])
+        s = sf.Series(a, index=v[1], name='sname')
+        return s, f'(GSeries {lit.vlist(v[1])} {lit.dtype(a.dtype)} {lit.vlist(lit.array_vals(a))})'
+    if kind == 'frame':
+        return sf.Frame.from_dict({'q': (1,)}), 'GFrame'
+    raise ValueError(kind)
+
+
+def _value_valid(v, nrows):
+    kind = v[0]
+    if kind == 'arr':
+        return len(v[2]) == nrows
+    if kind == 'iter':
+        return len(v[1]) == nrows
+    return kind in ('scalar', 'series')
+
+
+def _fill_args(op):
+    fill = op.get('fill', NAN)
+    return fill, f'{lit.val(fill)} {lit.dtype(_fdt(fill))}'
+
+
+def apply_frame_op(g, op):
+    """Apply one growth call to the real FrameGO; returns (exception or None, Coq literal of the op)."""
+    import static_frame as sf
+    kind = op['op']
+    if kind == 'read':
+        return _call(lambda: (g.columns.values, g.shape, g.values)), 'ORead'
+    if kind == 'ext_other':
+        return _call(lambda: g.extend([1, 2])), 'OExtOther'
+    fill, fl = _fill_args(op)
+    default_fill = 'fill' not in op
+    if kind == 'set':
+        py, vl = _gvalue(op['value'])
+        if default_fill:
+            exc = _call(lambda: g.__setitem__(op['key'], py))
+        else:
+            exc = _call(lambda: g.__setitem__(op['key'], py, fill))
+        return exc, f'(OSet {lit.val(op["key"])} {vl} {fl})'
+    if kind == 'items':
+        pys, vls = [], []
+        for k, v in op['pairs']:
+            py, vl = _gvalue(v)
+            pys.append((k, py))
+            vls.append(f'({lit.val(k)}, {vl})')
+        gen = (p for p in pys) if op.get('generator') else pys
+        if default_fill:
+            exc = _call(lambda: g.extend_items(gen))
+        else:
+            exc = _call(lambda: g.extend_items(gen, fill_value=fill))
+        return exc, f'(OItems {lit.lst(vls)} {fl})'
+    if kind == 'ext_series':
+        a = _arr(op['dtype'], op['vals'])
+        s = sf.Series(a, index=op['sidx'], name=op['name'])
+        exc = _call(lambda: g.extend(s) if default_fill else g.extend(s, fill_value=fill))
+        return exc, (f'(OExtSeries {lit.val(op["name"])} {lit.vlist(op["sidx"])} {lit.dtype(a.dtype)} '
+                     f'{lit.vlist(lit.array_vals(a))} {fl})')
+    if kind == 'ext_frame':
+        cols = [_arr(dt, vs) for dt, vs in op['cols']]
+        cls = sf.FrameGO if op.get('go') else sf.Frame
+        other = zoo.frame_from_columns(cols, tuple(tuple(x) for x in op['layout']), index=op['fidx'],
+                                       columns=op['fcols'] if cols else None, cls=cls)
+        exc = _call(lambda: g.extend(other) if default_fill else g.extend(other, fill_value=fill))
+        blocks = lit.lst([_blk_lit(b) for b in other._blocks._blocks])
+        return exc, f'(OExtFrame {lit.vlist(op["fidx"])} {lit.vlist(op["fcols"])} {blocks} {fl})'
+    raise ValueError(kind)
+
+
+def snap_frame(g):
+    import static_frame as sf
+    labels = g.columns.values.tolist()
+    npos = len(g.columns.positions)
+    shape = tuple(int(x) for x in g.shape)
+    cols = []
+    for j in range(shape[1]):
+        a = g._blocks._extract_array(column_key=j)
+        cols.append((a.dtype, lit.array_vals(a)))
+    layout = zoo.layout_of(g)
+    readable = []
+    for i, l in enumerate(labels):
+        ok = False
+        try:
+            s = g[l]
+            ok = (isinstance(s, sf.Series) and i < len(cols) and s.values.dtype == cols[i][0]
+                  and lit.vlist(lit.array_vals(s.values)) == lit.vlist(cols[i][1])
+                  and lit.vlist(lit.labels(s.index)) == lit.vlist(lit.labels(g.index)))
+        except Exception:  # noqa
+            ok = False
+        readable.append(ok)
+    dts = list(g._blocks._dtypes)
+    rowdt = g._blocks._row_dtype
+    try:
+        pub = [np.dtype(x) for x in g.dtypes.values.tolist()] == [np.dtype(x) for x in dts] and \
+            lit.vlist(lit.labels(g.dtypes.index)) == lit.vlist(labels)
+    except Exception:  # noqa
+        pub = False
+    return labels, npos, cols, shape, layout, readable, dts, rowdt, pub
+
+
+def _fseen_lit(snap):
+    labels, npos, cols, shape, layout, readable, dts, rowdt, pub = snap
+    cl = lit.lst([f'({lit.dtype(dt)}, {lit.vlist(vs)})' for dt, vs in cols])
+    ll = lit.lst([f'({lit.z(w)}, {lit.b(d)})' for w, d in layout])
+    rd = 'None' if rowdt is None else f'(Some {lit.dtype(rowdt)})'
+    return (f'(Some (mk_fseen {lit.vlist(labels)} {lit.z(npos)} {cl} ({lit.z(shape[0])}, {lit.z(shape[1])}) '
+            f'{ll} {lit.lst([lit.b(x) for x in readable])} {lit.lst([lit.dtype(d) for d in dts])} {rd} {lit.b(pub)}))')
+
+
+def _frame_init(init):
+    """init = dict(rows, labels or None (auto), cols [(dtype, vals)], layout)."""
+    import static_frame as sf
+    cols = [_arr(dt, vs) for dt, vs in init['cols']]
+    return zoo.frame_from_columns(cols, tuple(tuple(x) for x in init['layout']), index=init['rows'],
+                                  columns=init['labels'], cls=sf.FrameGO)
+
+
+def frame_history(init, ops, look):
+    g = _frame_init(init)
+    auto = init['labels'] is None
+    labels0 = list(range(len(init['cols']))) if auto else list(init['labels'])
+    blocks0 = lit.lst([_blk_lit(b) for b in g._blocks._blocks])
+    rows_before = lit.vlist(lit.labels(g.index))
+    recs, steps = [], []
+    py_fail = None
+    for op, see in zip(ops, look):
+        exc, ol = apply_frame_op(g, op)
+        snap = snap_frame(g) if see else None
+        recs.append(f'({ol}, {_out(exc)}, {_fseen_lit(snap) if snap else "None"})')
+        steps.append({'op': _j_op(op), 'raised': None if exc is None else type(exc).__name__,
+                      'seen': None if snap is None else {'columns': _j(snap[0]), 'positions': snap[1], 'shape': list(snap[3]),
+                                                         'data': [[str(dt), _j(vs)] for dt, vs in snap[2]],
+                                                         'layout': zoo.layout_str(snap[4]), 'readable_by_label': snap[5],
+                                                         'dtypes': [str(d) for d in snap[6]], 'dtypes_property_ok': snap[8]}})
+        if lit.vlist(lit.labels(g.index)) != rows_before and py_fail is None:
+            py_fail = 'the row index of a FrameGO changed under a growth call'
+    h = lit.lst(recs)
+    desc = {'container': 'FrameGO', 'init': {'rows': _j(init['rows']), 'columns': 'auto' if auto else _j(init['labels']),
+                                             'data': [[str(np.dtype(dt)), _j(vs)] for dt, vs in init['cols']],
+                                             'layout': zoo.layout_str(tuple(tuple(x) for x in init['layout']))},
+            'steps': steps}
+    m = f'check_fgo_M {lit.b(auto)} {lit.vlist(init["rows"])} {lit.vlist(labels0)} {blocks0} {h}'
+    s = f'check_fgo_S {lit.vlist(init["rows"])} {lit.vlist(labels0)} {blocks0} {h}'
+    return desc, m, s, py_fail
+
+
+def _j_op(op):
+    out = {}
+    for k, v in op.items():
+        if k == 'dtype':
+            out[k] = str(np.dtype(v))
+        elif k == 'cols':
+            out[k] = [[str(np.dtype(dt)), _j(vs)] for dt, vs in v]
+        elif k == 'value':
+            out[k] = _j_value(v)
+        elif k == 'pairs':
+            out[k] = [[_j(a), _j_value(b)] for a, b in v]
+        else:
+            out[k] = _j(v)
+    return out
+
+
+def _j_value(v):
+    return [str(np.dtype(x)) if isinstance(x, (np.dtype, type)) else _j(x) for x in v]
+
+
+def classify_frame_ops(init, ops):
+    """Finding class BY CONSTRUCTION (first met): see classify_index_ops."""
+    auto = init['labels'] is None
+    cur = list(range(len(init['cols']))) if auto else list(init['labels'])
+    is_auto = auto
+    nrows = len(init['rows'])
+    for op in ops:
+        kind = op['op']
+        if kind in ('read', 'ext_other'):
+            continue
+        if kind == 'set':
+            seq, partial = [(op['key'], _value_valid(op['value'], nrows))], None
+        elif kind == 'items':
+            seq, partial = [(k, _value_valid(v, nrows)) for k, v in op['pairs']], F_ITEMS
+        elif kind == 'ext_series':
+            seq, partial = [(op['name'], True)], None
+        else:
+            seq, partial = [(k, True) for k in op['fcols']], F_FRM_EXT
+        added = []
+        rejected = False
+        for k, (v, valid) in enumerate(seq):
+            intlike = isinstance(v, (int, np.integer))
+            now = cur + added
+            dup = _in(v, now)
+            if dup and is_auto and not intlike and valid:
+                return F_AUTO
+            if dup or not valid:
+                if k > 0:
+                    return partial
+                rejected = True
+                break
+            if is_auto and not (intlike and v == len(now)):
+                is_auto = False
+            added.append(v)
+        if not rejected:
+            cur += added
+    return None
+
+
+ROWS = ['x', 'y']
+
+
+def _frame_alphabet():
+    i8, f8 = np.int64, np.float64
+    return [
+        {'op': 'set', 'key': 'b', 'value': ('arr', i8, [3, 4])},
+        {'op': 'set', 'key': 'a', 'value': ('arr', i8, [3, 4])},                       # duplicate key
+        {'op': 'set', 'key': 'c', 'value': ('iter', [1.5, 2.5, 3.5])},                 # wrong length
+        {'op': 'set', 'key': 'c', 'value': ('series', ['y', 'z'], i8, [10, 20])},      # unaligned index
+        {'op': 'ext_frame', 'fidx': ['x', 'y'], 'fcols': ['c', 'd'], 'cols': [(i8, [5, 6]), (i8, [7, 8])], 'layout': [(2, True)]},
+        {'op': 'ext_frame', 'fidx': ['y', 'x'], 'fcols': ['a', 'e'], 'cols': [(i8, [5, 6]), (f8, [0.5, 1.5])],
+         'layout': [(1, False), (1, True)]},                                           # rejected at the first label
+        {'op': 'ext_frame', 'fidx': ['x', 'y'], 'fcols': ['e', 'a'], 'cols': [(i8, [5, 6]), (i8, [7, 8])],
+         'layout': [(2, True)]},                                                       # partial duplicate (finding class)
+        {'op': 'items', 'pairs': [('f', ('scalar', 7)), ('g', ('iter', ['p', 'qq']))]},
+        {'op': 'items', 'pairs': [('h', ('arr', i8, [1, 2])), ('a', ('arr', i8, [1, 2]))]},   # partial (finding class)
+        {'op': 'ext_series', 'name': 'b', 'sidx': ['x', 'y'], 'dtype': np.bool_, 'vals': [True, False]},
+        {'op': 'read'},
+    ]
+
+
+def frame_exhaustive(ctx):
+    N = 2 if ctx.tier == 'quick' else 3
+    init = {'rows': ROWS, 'labels': ['a'], 'cols': [(np.int64, [1, 2])], 'layout': [(1, False)]}
+    alpha = _frame_alphabet()
+    for n in range(1, N + 1):
+        for ops in itertools.product(alpha, repeat=n):
+            yield init, list(ops), [i != 0 for i in range(n)]
+
+
+CORPUS_FRAME = [
+    ({'rows': ['x', 'y'], 'labels': ['a', 'b'], 'cols': [(np.int64, [1, 2]), (np.int64, [3, 4])], 'layout': [(2, True)]},
+     [{'op': 'ext_frame', 'fidx': ['x', 'y'], 'fcols': ['c', 'b'], 'cols': [(np.int64, [5, 6]), (np.int64, [7, 8])],
+       'layout': [(1, False), (1, False)]},
+      {'op': 'read'}]),
+    ({'rows': ['x', 'y'], 'labels': ['a', 'b'], 'cols': [(np.int64, [1, 2]), (np.int64, [3, 4])], 'layout': [(2, True)]},
+     [{'op': 'items', 'pairs': [('c', ('iter', [1, 2])), ('a', ('iter', [3, 4])), ('d', ('iter', [5, 6]))]}]),
+    ({'rows': ['x', 'y'], 'labels': None, 'cols': [(np.int64, [1, 3]), (np.int64, [2, 4]), (np.int64, [3, 5])], 'layout': [(3, True)]},
+     [{'op': 'set', 'key': 1.0, 'value': ('iter', [7, 8])}, {'op': 'set', 'key': 3, 'value': ('iter', [9, 9])}]),
+]
+
+VALS = {
+    'i': (np.int64, [1, 2, 3, -4, 50, 0]),
+    'f': (np.float64, [1.5, -0.25, 2.0, 8.0, NAN, 0.5]),
+    'b': (np.bool_, [True, False]),
+    'U': (np.dtype('<U2'), ['p', 'qq', 'r', 'st']),
+    'O': (np.dtype(object), [1, 'a', None, 2.5, True]),
+}
+
+
+def _col(rng, nrows, kinds='ifbUO'):
+    k = rng.choice(kinds)
+    dt, pool = VALS[k]
+    return (dt, [rng.choice(pool) for _ in range(nrows)])
+
+
+def _rand_layout(rng, cols):
+    lays = list(zoo.layouts_for([np.dtype(dt) for dt, _ in cols]))
+    return [list(x) for x in rng.choice(lays)]
+
+
+def frame_random(ctx, count):
+    rng = ctx.rng
+    for _ in range(count):
+        nrows = rng.choice([1, 2, 2, 3])
+        rows = rng.sample(['x', 'y', 'z', 'w'], nrows) if rng.random() < 0.8 else list(range(10, 10 + nrows))
+        other_rows = [r for r in ['x', 'y', 'z', 'w', 'v'] if r not in rows] if isinstance(rows[0], str) else [7, 8, 9]
+        ncols = rng.randint(0, 3)
+        auto = rng.random() < 0.3
+        cols = [_col(rng, nrows) for _ in range(ncols)]
+        pool = ['a', 'b', 'c', 'd', 'e', 'f', 'g', 'h', 'k', 'm'] if not auto else [0, 1, 2, 3, 4, 5, 6, 7, 'a', 'b', 2.5]
+        if rng.random() < 0.2 and not auto:
+            pool = [1, 'a', 5, 'b', 2.5, 9, 'c', 12, 'd', 'e']
+        labels = None if auto else rng.sample(pool, ncols)
+        init = {'rows': rows, 'labels': labels, 'cols': cols, 'layout': _rand_layout(rng, cols) if cols else []}
+        cur = list(range(ncols)) if auto else list(labels)
+        state = {'auto': auto}
+        ops = []
+        nops = rng.randint(1, 7)
+        special_at = rng.randrange(nops) if rng.random() < 0.15 else -1
+
+        def fresh(k=1):
+            out = [p for p in pool if not _in(p, cur)]
+            if state['auto'] and rng.random() < 0.6:
+                return [len(cur) + i for i in range(k)]
+            rng.shuffle(out)
+            return out[:k]
+
+        def note(keys):
+            for v in keys:
+                if state['auto'] and not (isinstance(v, int) and v == len(cur)):
+                    state['auto'] = False
+                cur.append(v)
+
+        def sidx():
+            r = rng.random()
+            if r < 0.4:
+                return list(rows)
+            if r < 0.6:
+                s = list(rows)
+                rng.shuffle(s)
+                return s
+            n = rng.randint(1, 3)
+            allr = rows + other_rows
+            return rng.sample(allr, min(n, len(allr)))
+
+        def fillkw():
+            if rng.random() < 0.6:
+                return {}
+            return {'fill': rng.choice([None, 0, NAN, 'z', -1.5])}
+
+        def value(valid=True):
+            r = rng.random()
+            n = nrows if valid else nrows + rng.choice([1, -1])
+            if not valid and rng.random() < 0.3:
+                return rng.choice([('arr2', nrows), ('frame',)])
+            if r < 0.3:
+                dt, vs = _col(rng, n)
+                return ('arr', dt, vs)
+            if r < 0.55:
+                k = rng.choice('ifbU')
+                return ('iter', [rng.choice([v for v in VALS[k][1] if v == v]) for _ in range(n)], rng.choice(['list', 'tuple']))
+            if not valid:
+                dt, vs = _col(rng, n)
+                return ('arr', dt, vs)
+            if r < 0.7:
+                k = rng.choice('ifbU')
+                return ('scalar', rng.choice([v for v in VALS[k][1] if v == v]))
+            si = sidx()
+            dt, vs = _col(rng, len(si))
+            return ('series', si, dt, vs)
+
+        for i in range(nops):
+            r = rng.random()
+            is_auto = state['auto']
+            if i == special_at and cur:
+                c = rng.random()
+                if is_auto and c < 0.4:
+                    ops.append(dict({'op': 'set', 'key': float(rng.randrange(len(cur))), 'value': value(True)}, **fillkw()))
+                    continue
+                fr = fresh(2)
+                if fr and c < 0.7:
+                    keys = [fr[0], rng.choice(cur)] + fr[1:]
+                    if is_auto and any(not isinstance(k, int) for k in keys):
+                        continue
+                    si = sidx()
+                    cs = [_col(rng, len(si)) for _ in keys]
+                    ops.append(dict({'op': 'ext_frame', 'fidx': si, 'fcols': keys, 'cols': cs, 'layout': _rand_layout(rng, cs)}, **fillkw()))
+                    continue
+                if fr:
+                    bad = (rng.choice(cur), value(True)) if rng.random() < 0.5 else (fr[-1] if len(fr) > 1 else 'zz', value(False))
+                    if is_auto and not isinstance(bad[0], int):
+                        continue
+                    ops.append(dict({'op': 'items', 'pairs': [(fr[0], value(True)), bad], 'generator': rng.random() < 0.5}, **fillkw()))
+                    continue
+            if r < 0.1:
+                ops.append({'op': 'read'})
+            elif r < 0.13:
+                ops.append({'op': 'ext_other'})
+            elif r < 0.45:
+                ok = rng.random() < 0.75
+                if ok or not cur:
+                    fr = fresh(1)
+                    if not fr:
+                        continue
+                    valid = rng.random() < 0.85
+                    ops.append(dict({'op': 'set', 'key': fr[0], 'value': value(valid)}, **fillkw()))
+                    if valid:
+                        note(fr)
+                else:
+                    k = rng.choice(cur)
+                    if is_auto and not isinstance(k, int):
+                        continue
+                    ops.append(dict({'op': 'set', 'key': k, 'value': value(rng.random() < 0.8)}, **fillkw()))
+            elif r < 0.6:
+                fr = fresh(1)
+                dup = rng.random() < 0.2 and cur
+                name = rng.choice(cur) if dup else (fr[0] if fr else None)
+                if name is None or (is_auto and not isinstance(name, int) and dup):
+                    continue
+                si = sidx()
+                dt, vs = _col(rng, len(si))
+                ops.append(dict({'op': 'ext_series', 'name': name, 'sidx': si, 'dtype': dt, 'vals': vs}, **fillkw()))
+                if not dup:
+                    note([name])
+            elif r < 0.82:
+                k = rng.randint(0, 3)
+                fr = fresh(k)
+                first_dup = rng.random() < 0.2 and cur
+                keys = ([rng.choice(cur)] if first_dup else []) + fr
+                if is_auto and first_dup and not isinstance(keys[0], int):
+                    continue
+                si = sidx()
+                cs = [_col(rng, len(si)) for _ in keys]
+                ops.append(dict({'op': 'ext_frame', 'fidx': si, 'fcols': keys, 'cols': cs, 'layout': _rand_layout(rng, cs) if cs else [],
+                                 'go': rng.random() < 0.3}, **fillkw()))
+                if not first_dup:
+                    note(keys)
+            else:
+                k = rng.randint(0, 3)
+                fr = fresh(k)
+                first_bad = rng.random() < 0.2
+                pairs = [(x, value(True)) for x in fr]
+                if first_bad:
+                    if cur and rng.random() < 0.5:
+                        kk = rng.choice(cur)
+                        if is_auto and not isinstance(kk, int):
+                            continue
+                        pairs = [(kk, value(True))] + pairs
+                    elif fr:
+                        pairs[0] = (fr[0], value(False))
+                    else:
+                        continue
+                ops.append(dict({'op': 'items', 'pairs': pairs, 'generator': rng.random() < 0.5}, **fillkw()))
+                if not first_bad:
+                    note(fr)
+        if not ops:
+            continue
+        look = [rng.random() < 0.7 for _ in ops]
+        look[-1] = True
+        yield init, ops, look
+
+
+def frame_cases(ctx):
+    def emit(kind, init, ops, look):
+        desc, m, s, py_fail = frame_history(init, ops, look)
+        f = classify_frame_ops(init, ops)
+        ctx.count(f'frame:{"auto" if init["labels"] is None else "map"}-columns', f'frame:len{len(ops)}',
+                  'frame:layout:' + desc['init']['layout'])
+        for op in ops:
+            ctx.count('frame:op:' + op['op'])
+            if op['op'] == 'set':
+                ctx.count('frame:value:' + op['value'][0])
+        for st in desc['steps']:
+            if st['raised']:
+                ctx.count('frame:raised:' + st['raised'])
+        tags = {'container': 'FrameGO'}
+        if f:
+            tags['finding'] = f
+        return Case(kind, desc, m=m, s=s, py_fail=py_fail, tags=tags,
+                    nontrivial=any(st['raised'] is None and st['op']['op'] != 'read' for st in desc['steps']))
+    for init, ops in CORPUS_FRAME:
+        yield emit('api:FrameGO-corpus', init, ops, [True] * len(ops))
+    for init, ops, look in frame_exhaustive(ctx):
+        yield emit('api:FrameGO-exhaustive', init, ops, look)
+    for init, ops, look in frame_random(ctx, ctx.n(200, 4000)):
+        yield emit('api:FrameGO-random', init, ops, look)
+
+
+# ----------------------------------------------------------------------------- sharing / isolation
+F_COLPROP = 'C09-columns-property-is-the-live-index'
+F_SETOP = 'C09-setop-without-operands-returns-self'
+
+
+def _is_container(x):
+    import static_frame as sf
+    from static_frame.core.index_base import IndexBase
+    return isinstance(x, (sf.Frame, sf.Series, IndexBase))
+
+
+def _containers_in(x, depth=0):
+    """Containers inside a derivation result (through tuples / lists / generators / dict views)."""
+    import types
+    if _is_container(x):
+        return [x]
+    if depth > 2 or isinstance(x, (str, bytes, np.ndarray)):
+        return []
+    if isinstance(x, (tuple, list, types.GeneratorType)) or type(x).__name__ in ('dict_items', 'dict_values', 'zip', 'map'):
+        out = []
+        try:
+            for i, y in enumerate(x):
+                if i > 12:
+                    break
+                out.extend(_containers_in(y, depth + 1))
+        except Exception:  # noqa
+            pass
+        return out
+    return []
+
+
+def content(c):
+    """Canonical content of a container through its public interface (what a user can see of it)."""
+    import static_frame as sf
+    from static_frame.core.index_base import IndexBase
+    try:
+        if isinstance(c, sf.Frame):
+            cols = []
+            for j in range(c.shape[1]):
+                a = c.iloc[:, j].values
+                cols.append((str(a.dtype), repr(a.tolist())))
+            return ('F', type(c).__name__, repr(c.name), repr(lit.labels(c.index)), repr(lit.labels(c.columns)),
+                    tuple(c.shape), tuple(cols), repr(c.values.tolist()))
+        if isinstance(c, sf.Series):
+            return ('S', type(c).__name__, repr(c.name), repr(lit.labels(c.index)), str(c.dtype), repr(c.values.tolist()))
+        if isinstance(c, IndexBase):
+            return ('I', type(c).__name__, repr(c.name), repr(lit.labels(c)), len(c), len(c.positions))
+    except Exception as e:  # noqa
+        return ('unreadable', type(c).__name__, type(e).__name__)
+    return ('?',)
+
+
+def _index_parts(ix, out):
+    from static_frame.core.index_hierarchy import IndexHierarchy
+    if ix is None:
+        return
+    if isinstance(ix, IndexHierarchy):
+        if not ix.STATIC:
+            out.append(('IndexHierarchyGO', ix))
+        todo = [ix._levels]
+        while todo:
+            lv = todo.pop()
+            if not lv.STATIC:
+                out.append(('IndexLevelGO', lv))
+            _index_parts(lv.index, out)
+            if lv.targets is not None:
+                if hasattr(lv.targets, '_array_mutable') and not lv.STATIC:
+                    out.append(('ArrayGO', lv.targets))
+                    if lv.targets._array_mutable is not None:
+                        out.append(('ArrayGO._array_mutable', lv.targets._array_mutable))
+                todo.extend(list(lv.targets))
+        if not ix.STATIC and getattr(ix, '_blocks', None) is not None:
+            _tb_parts(ix._blocks, out)
+        return
+    if not ix.STATIC:
+        out.append(('IndexGO', ix))
+        out.append(('IndexGO._labels_mutable', ix._labels_mutable))
+        if ix._map is not None:
+            out.append(('IndexGO._map', ix._map))
+
+
+def _tb_parts(tb, out):
+    out.append(('TypeBlocks', tb))
+    out.append(('TypeBlocks._blocks', tb._blocks))
+    out.append(('TypeBlocks._index', tb._index))
+    out.append(('TypeBlocks._dtypes', tb._dtypes))
+
+
+def mutable_parts(c, grown_only=False):
+    """Mutable objects reachable from a container (kernel-level observation by identity); with grown_only,
+    only those a growth call ON THIS container mutates (a frame's row index never grows)."""
+    import static_frame as sf
+    from static_frame.core.index_base import IndexBase
+    out = []
+    if isinstance(c, sf.Frame):
+        _tb_parts(c._blocks, out)
+        _index_parts(c._columns, out)
+        if not grown_only:
+            _index_parts(c._index, out)
+    elif isinstance(c, sf.Series):
+        _index_parts(c._index, out)
+    elif isinstance(c, IndexBase):
+        _index_parts(c, out)
+    return out
+
+
+def _is_go(c):
+    import static_frame as sf
+    from static_frame.core.index_base import IndexBase
+    return (isinstance(c, sf.FrameGO)) or (isinstance(c, IndexBase) and not c.STATIC)
+
+
+def _fresh_label(c, k):
+    """A label not present yet, of the shape the container's (column) index needs."""
+    import static_frame as sf
+    ix = c._columns if isinstance(c, sf.Frame) else c
+    depth = ix.depth
+    base = f'new{k}'
+    if depth == 1:
+        return base
+    last = tuple(ix.values[-1]) if len(ix) else tuple('p' for _ in range(depth))
+    return tuple(last[:-1]) + (base,)
+
+
+def grow(c, k):
+    """One valid growth call on a grow-only container; returns a description."""
+    import static_frame as sf
+    lab = _fresh_label(c, k)
+    if isinstance(c, sf.FrameGO):
+        n = c.shape[0]
+        if k % 2 == 0 or c._columns.depth > 1:
+            c[lab] = np.arange(n) + 100 * (k + 1)
+            return f'setitem {lab!r}'
+        other = sf.Frame(np.arange(2 * n).reshape(n, 2), index=c.index, columns=(lab, str(lab) + '_2'))
+        c.extend(other)
+        return f'extend frame {lab!r}'
+    c.append(lab)
+    return f'append {lab!r}'
+
+
+def _base_frames():
+    import static_frame as sf
+    data = {'a': (1, 2, 3), 'b': (4.5, 5.5, 6.5), 'c': ('p', 'q', 'r'), 'd': (True, False, True)}
+    idx = ('x', 'y', 'z')
+
+    def go_explicit():
+        return sf.FrameGO.from_dict(data, index=idx, name='nm')
+
+    def go_auto():
+        return sf.FrameGO.from_records([(1, 2.5, 7), (3, 4.5, 8), (5, 6.5, 9)], index=idx)
+
+    def go_hier():
+        return sf.FrameGO.from_dict(data, index=idx).relabel_level_add(columns='A')
+
+    def go_grown():
+        f = sf.FrameGO.from_dict({'a': (1, 2, 3)}, index=idx)
+        f['b'] = (4.5, 5.5, 6.5)
+        f.extend(sf.Frame.from_dict({'c': ('p', 'q', 'r'), 'd': (True, False, True)}, index=idx))
+        return f
+
+    def static():
+        return sf.Frame.from_dict(data, index=idx, name='nm')
+
+    def he():
+        return sf.FrameHE.from_dict(data, index=idx, name='nm')
+
+    def static_from_go():
+        return go_grown().to_frame()
+
+    return [('FrameGO', go_explicit), ('FrameGO-auto-columns', go_auto), ('FrameGO-hier-columns', go_hier),
+            ('FrameGO-grown', go_grown), ('Frame', static), ('FrameHE', he), ('Frame-from-FrameGO', static_from_go)]
+
+
+def _frame_derivations():
+    import static_frame as sf
+
+    def first(s):
+        return s.columns.values[0] if s.columns.depth == 1 else tuple(s.columns.values[0])
+
+    def two(s):
+        v = s.columns.values
+        return [x if s.columns.depth == 1 else tuple(x) for x in v[:2]]
+
+    D = {
+        'to_frame': lambda s: s.to_frame(),
+        'to_frame_go': lambda s: s.to_frame_go(),
+        'to_frame_he': lambda s: s.to_frame_he(),
+        'to_frame_go.to_frame': lambda s: s.to_frame_go().to_frame(),
+        'to_frame.to_frame_go': lambda s: s.to_frame().to_frame_go(),
+        'Frame(s)': lambda s: sf.Frame(s),
+        'FrameGO(s)': lambda s: sf.FrameGO(s),
+        'FrameHE(s)': lambda s: sf.FrameHE(s),
+        'cls(s)': lambda s: s.__class__(s),
+        'FrameGO(s,columns=s.columns)': lambda s: sf.FrameGO(s.values, index=s.index, columns=s.columns),
+        'Frame(s,columns=s.columns)': lambda s: sf.Frame(s.values, index=s.index, columns=s.columns),
+        'getitem-list': lambda s: s[two(s)],
+        'getitem-one': lambda s: s[first(s)],
+        'getitem-slice': lambda s: s[first(s):],
+        'iloc-all': lambda s: s.iloc[:, :],
+        'iloc-cols': lambda s: s.iloc[:, [0, 1]],
+        'iloc-row': lambda s: s.iloc[0],
+        'iloc-rows': lambda s: s.iloc[[0, 2]],
+        'loc-rows': lambda s: s.loc[['x', 'z']],
+        'loc-both': lambda s: s.loc['x':, two(s)],
+        'relabel-columns-map': lambda s: s.relabel(columns={first(s): 'Q'}) if s.columns.depth == 1 else s.relabel(columns=lambda x: x),
+        'relabel-columns-own-index': lambda s: s.relabel(columns=s.columns),
+        'relabel-index': lambda s: s.relabel(index=lambda x: x + '_'),
+        'relabel-both': lambda s: s.relabel(index=s.index, columns=s.columns),
+        'relabel_flat': lambda s: s.relabel_flat(columns=True),
+        'relabel_level_add': lambda s: s.relabel_level_add(columns='T'),
+        'relabel_level_drop': lambda s: s.relabel_level_drop(columns=1),
+        'rename': lambda s: s.rename('other'),
+        'sort_index': lambda s: s.sort_index(ascending=False),
+        'sort_columns': lambda s: s.sort_columns(ascending=False),
+        'sort_values': lambda s: s.sort_values(first(s), ascending=False),
+        'reindex-index': lambda s: s.reindex(index=('z', 'y', 'x', 'w')),
+        'reindex-columns': lambda s: s.reindex(columns=two(s)),
+        'reindex-same': lambda s: s.reindex(index=s.index, columns=s.columns),
+        'mul': lambda s: s.iloc[:, [0]] * 2,
+        'add-self': lambda s: s.iloc[:, [0]] + s.iloc[:, [0]],
+        'eq-self': lambda s: s == s,
+        'neg': lambda s: -s.iloc[:, [0]],
+        'abs': lambda s: abs(s.iloc[:, [0]]),
+        'iter_series': lambda s: tuple(s.iter_series()),
+        'iter_series-rows': lambda s: tuple(s.iter_series(axis=1)),
+        'iter_series_items': lambda s: tuple(s.iter_series_items()),
+        'items': lambda s: tuple(s.items()),
+        'iter_array': lambda s: tuple(s.iter_array()),
+        'iter_group': lambda s: tuple(s.iter_group(first(s))),
+        'iter_group_items': lambda s: tuple(s.iter_group_items(first(s))),
+        'iter_group_labels': lambda s: tuple(s.iter_group_labels(0)),
+        'iter_window': lambda s: tuple(s.iter_window(size=2)),
+        'iter_element.apply': lambda s: s.iter_element().apply(lambda e: e),
+        'iter_series.apply': lambda s: s.iter_series().apply(lambda x: x.iloc[0]),
+        'set_index': lambda s: s.set_index(first(s)),
+        'set_index-drop': lambda s: s.set_index(first(s), drop=True),
+        'set_index_hierarchy': lambda s: s.set_index_hierarchy(two(s)),
+        'unset_index': lambda s: s.unset_index(),
+        'transpose': lambda s: s.transpose(),
+        'T': lambda s: s.T,
+        'astype': lambda s: s.iloc[:, [0]].astype(float),
+        'astype-sel': lambda s: s.astype[first(s)](object),
+        'assign': lambda s: s.assign[first(s)](0),
+        'assign-loc': lambda s: s.assign.loc['x', first(s)](0),
+        'drop': lambda s: s.drop[first(s)],
+        'drop-iloc': lambda s: s.drop.iloc[0],
+        'mask': lambda s: s.mask[first(s)],
+        'fillna': lambda s: s.fillna(0),
+        'dropna': lambda s: s.dropna(),
+        'isna': lambda s: s.isna(),
+        'notna': lambda s: s.notna(),
+        'isin': lambda s: s.isin((1, 'p')),
+        'head': lambda s: s.head(2),
+        'tail': lambda s: s.tail(2),
+        'roll': lambda s: s.roll(1),
+        'roll-columns': lambda s: s.roll(columns=1, include_columns=True),
+        'shift': lambda s: s.shift(1),
+        'clip': lambda s: s.iloc[:, [0]].clip(lower=2),
+        'drop_duplicated': lambda s: s.drop_duplicated(),
+        'duplicated': lambda s: s.duplicated(),
+        'sum': lambda s: s.iloc[:, [0, 1]].sum(),
+        'count': lambda s: s.count(),
+        'dtypes': lambda s: s.dtypes,
+        'loc_max': lambda s: s.iloc[:, [0, 1]].loc_max(),
+        'cumsum': lambda s: s.iloc[:, [0, 1]].cumsum(),
+        'bloc': lambda s: s.bloc[s.iloc[:, [0]] > 1],
+        'get': lambda s: s.get(first(s)),
+        'columns-property': lambda s: s.columns,
+        'index-property': lambda s: s.index,
+        'keys': lambda s: s.keys(),
+        'columns.copy': lambda s: s.columns.copy(),
+        'columns.rename': lambda s: s.columns.rename('cn'),
+        'columns.relabel': lambda s: s.columns.relabel(lambda x: x),
+        'columns.iloc': lambda s: s.columns.iloc[:],
+        'columns.iloc-list': lambda s: s.columns.iloc[[0, 1]],
+        'IndexGO(columns)': lambda s: sf.IndexGO(s.columns) if s.columns.depth == 1 else sf.IndexHierarchyGO(s.columns),
+        'Index(columns)': lambda s: sf.Index(s.columns) if s.columns.depth == 1 else sf.IndexHierarchy(s.columns),
+        'columns.level_add': lambda s: s.columns.level_add('L'),
+        'columns.union': lambda s: s.columns.union(s.columns),
+        'columns.to_series': lambda s: s.columns.to_series(),
+        'columns.sort': lambda s: s.columns.sort(ascending=False),
+        'columns.roll': lambda s: s.columns.roll(1),
+        'insert_after': lambda s: s.insert_after(first(s), sf.Frame.from_dict({'ins': (0, 0, 0)}, index=s.index)),
+        'insert_before': lambda s: s.insert_before(first(s), sf.Series((0, 0, 0), index=s.index, name='ins')),
+        'from_concat-columns': lambda s: s.__class__.from_concat((s, s.relabel(columns=lambda x: ('k', x))), axis=1),
+        'from_concat-rows': lambda s: s.__class__.from_concat((s, s.relabel(index=lambda x: x + '2')), axis=0),
+        'FrameGO.from_concat': lambda s: sf.FrameGO.from_concat((s,), axis=1),
+        'from_items': lambda s: sf.FrameGO.from_items(s.items()),
+        'from_series': lambda s: sf.FrameGO.from_series(s[first(s)]),
+        'join_left': lambda s: s.join_left(s.iloc[:, [0]].relabel(columns=('j',)), left_depth_level=0, right_depth_level=0),
+        'pivot_stack': lambda s: s.pivot_stack(),
+        'rehierarch': lambda s: s.rehierarch(columns=(1, 0)),
+        'unique': lambda s: s.unique(),
+        'to_pairs': lambda s: s.to_pairs(),
+        'sample': lambda s: s.sample(2, seed=3),
+    }
+    return D
+
+
+def _index_sources():
+    import static_frame as sf
+    return [('IndexGO', lambda: sf.IndexGO(('a', 'b', 'c'), name='n')),
+            ('IndexGO-auto', lambda: sf.IndexGO(range(3), loc_is_iloc=True)),
+            ('IndexGO-grown', lambda: _grown_index()),
+            ('Index', lambda: sf.Index(('a', 'b', 'c'), name='n')),
+            ('IndexHierarchyGO', lambda: sf.IndexHierarchyGO.from_labels((('a', 1), ('a', 2), ('b', 1)), name='n')),
+            ('IndexHierarchy', lambda: sf.IndexHierarchy.from_labels((('a', 1), ('a', 2), ('b', 1)), name='n'))]
+
+
+def _grown_index():
+    import static_frame as sf
+    i = sf.IndexGO(('a',))
+    i.append('b')
+    i.extend(('c', 'd'))
+    return i
+
+
+def _index_derivations():
+    import static_frame as sf
+
+    def go_of(s):
+        return sf.IndexGO(s) if s.depth == 1 else sf.IndexHierarchyGO(s)
+
+    def st_of(s):
+        return sf.Index(s) if s.depth == 1 else sf.IndexHierarchy(s)
+
+    return {
+        'copy': lambda s: s.copy(),
+        '__copy__': lambda s: __import__('copy').copy(s),
+        'deepcopy': lambda s: __import__('copy').deepcopy(s),
+        'rename': lambda s: s.rename('other'),
+        'relabel': lambda s: s.relabel(lambda x: x),
+        'iloc-all': lambda s: s.iloc[:],
+        'iloc-list': lambda s: s.iloc[[0, 1]],
+        'iloc-slice': lambda s: s.iloc[1:],
+        'loc-slice': lambda s: s.loc[s.values[0] if s.depth == 1 else tuple(s.values[0]):],
+        'GO(s)': go_of,
+        'static(s)': st_of,
+        'cls(s)': lambda s: s.__class__(s),
+        'GO(static(s))': lambda s: go_of(st_of(s)),
+        'static(GO(s))': lambda s: st_of(go_of(s)),
+        'union-self': lambda s: s.union(s),
+        'intersection-self': lambda s: s.intersection(s),
+        'union-other': lambda s: s.union(s.iloc[:1]),
+        'sort': lambda s: s.sort(ascending=False),
+        'roll': lambda s: s.roll(1),
+        'level_add': lambda s: s.level_add('L'),
+        'level_drop': lambda s: s.level_drop(1),
+        'flat': lambda s: s.flat(),
+        'to_series': lambda s: s.to_series(),
+        'to_frame': lambda s: s.to_frame(),
+        'to_frame_go': lambda s: s.to_frame_go(),
+        'Series(index=s)': lambda s: sf.Series(range(len(s)), index=s),
+        'Frame(columns=s)': lambda s: sf.Frame(np.arange(len(s) * 2).reshape(2, len(s)), columns=s),
+        'FrameGO(columns=s)': lambda s: sf.FrameGO(np.arange(len(s) * 2).reshape(2, len(s)), columns=s),
+        'FrameGO(index=s)': lambda s: sf.FrameGO(np.arange(len(s) * 2).reshape(len(s), 2), index=s),
+        'Series(index=s).index': lambda s: sf.Series(range(len(s)), index=s).index,
+        'FrameGO(columns=s).columns': lambda s: sf.FrameGO(np.arange(len(s) * 2).reshape(2, len(s)), columns=s).columns,
+        'isin': lambda s: s.isin(s.values[:1].tolist() if s.depth == 1 else [tuple(s.values[0])]),
+        'astype': lambda s: s.astype(object),
+        'rehierarch': lambda s: s.rehierarch((1, 0)),
+        'from_labels(iter)': lambda s: s.__class__.from_labels(iter(s)),
+        'values_at_depth': lambda s: s.values_at_depth(0),
+        'index_types': lambda s: s.index_types,
+        'fillna': lambda s: s.fillna('z'),
+        'head': lambda s: s.head(2),
+        'tail': lambda s: s.tail(2),
+        'drop.iloc': lambda s: s.drop.iloc[0],
+        'add': lambda s: s + '_',
+        'iter_label.apply': lambda s: s.iter_label().apply(lambda x: x),
+    }
+
+
+def _auto_derivations(src):
+    """Every public zero-argument method / property of the source's class that is not curated above."""
+    skip_prefix = ('from_', 'to_', 'display', 'interface', 'extend', 'append', 'via_', 'mloc', 'iter_', 'STATIC')
+    keep = ('to_frame', 'to_frame_go', 'to_frame_he', 'to_pairs', 'to_series')
+    out = {}
+    for name in sorted(dir(type(src))):
+        if name.startswith('_'):
+            continue
+        if name.startswith(skip_prefix) and name not in keep:
+            continue
+        out['auto:' + name] = (lambda nm: (lambda s: (lambda a: a() if callable(a) else a)(getattr(s, nm))))(name)
+    return out
+
+
+class _OwnSites:
+    """Records the construction call sites (file:line) that pass an own_* keyword while the sharing stratum runs."""
+
+    def __init__(self):
+        self.sites = set()
+        self._orig = []
+
+    def __enter__(self):
+        import sys
+        import static_frame as sf
+        from static_frame.core.index_hierarchy import IndexHierarchy
+        sites = self.sites
+
+        def wrap(cls):
+            orig = cls.__dict__.get('__init__')
+            if orig is None:
+                return
+
+            def init(self_, *a, **k):
+                if any(key.startswith('own_') for key in k):
+                    fr = sys._getframe(1)
+                    fn = fr.f_code.co_filename
+                    if 'static_frame' in fn:
+                        flags = ','.join(f'{key}={k[key]!r}' for key in sorted(k) if key.startswith('own_') and isinstance(k[key], bool))
+                        sites.add((fn.split('static_frame/')[-1], fr.f_lineno, cls.__name__, flags))
+                return orig(self_, *a, **k)
+            self._orig.append((cls, orig))
+            cls.__init__ = init
+        for cls in (sf.Frame, sf.Series, IndexHierarchy):
+            wrap(cls)
+        return self
+
+    def __exit__(self, *exc):
+        for cls, orig in self._orig:
+            cls.__init__ = orig
+        return False
+
+
+def _own_sites_in_source():
+    """Number of call sites with an own_* keyword in the core package (AST scan), for the coverage figure."""
+    import ast
+    import os
+    from ..core import REPO
+    n = 0
+    root = os.path.join(REPO, 'static_frame', 'core')
+    for fn in sorted(os.listdir(root)):
+        if not fn.endswith('.py'):
+            continue
+        try:
+            tree = ast.parse(open(os.path.join(root, fn)).read())
+        except SyntaxError:
+            continue
+        for node in ast.walk(tree):
+            if isinstance(node, ast.Call) and any(kw.arg and kw.arg.startswith('own_') for kw in node.keywords):
+                n += 1
+    return n
+
+
+def sharing_history(src_name, make_src, dname, derive):
+    """derive -> grow source -> derive again -> grow every grow-only derived -> grow source again; after every
+    growth every OTHER live container must read exactly as before, and no object a growth call mutates may
+    be reachable from two containers."""
+    src = make_src()
+    live = [('source', src)]
+    steps = []
+    problems = []
+
+    def add_derived(tag):
+        try:
+            res = derive(src)
+        except Exception as e:  # noqa
+            steps.append({'derive': dname, 'raised': type(e).__name__})
+            return False
+        got = _containers_in(res)
+        for k, c in enumerate(got):
+            live.append((f'{tag}[{k}]:{type(c).__name__}', c))
+        steps.append({'derive': dname, 'containers': [type(c).__name__ for c in got]})
+        return bool(got)
+
+    def check_identity(when):
+        for i, (ni, ci) in enumerate(live):
+            if not _is_go(ci):
+                continue
+            mine = {id(o): p for p, o in mutable_parts(ci, grown_only=True)}
+            for j, (nj, cj) in enumerate(live):
+                if i == j or cj is ci:
+                    if cj is ci and i != j and i < j:
+                        problems.append(f'{when}: {nj} IS the grow-only container {ni} (same object)')
+                    continue
+                for p, o in mutable_parts(cj):
+                    if id(o) in mine:
+                        problems.append(f'{when}: {ni} and {nj} share the mutable object {mine[id(o)]}')
+                        break
+
+    def grow_and_check(i, k):
+        name, c = live[i]
+        before = [content(x) for _, x in live]
+        try:
+            what = grow(c, k)
+        except Exception as e:  # noqa
+            steps.append({'grow': name, 'raised': type(e).__name__})
+            return
+        steps.append({'grow': name, 'call': what})
+        after = [content(x) for _, x in live]
+        for j, (nj, cj) in enumerate(live):
+            if cj is c:
+                if j != i:
+                    pass
+                continue
+            if before[j] != after[j]:
+                problems.append(f'growing {name} ({what}) changed {nj}: {str(before[j])[:120]} -> {str(after[j])[:120]}')
+        if content(c) == before[i]:
+            problems.append(f'growing {name} ({what}) did not change it')
+
+    ok = add_derived('d1')
+    if not ok:
+        return None, steps, problems
+    check_identity('after the first derivation')
+    k = 0
+    if _is_go(src):
+        grow_and_check(0, k)
+        k += 1
+        add_derived('d2')
+        check_identity('after growing the source and deriving again')
+    for i in range(1, len(live)):
+        if _is_go(live[i][1]) and not any(live[i][1] is live[j][1] for j in range(i)):
+            grow_and_check(i, k)
+            k += 1
+    if _is_go(src):
+        grow_and_check(0, k)
+    return live, steps, problems
+
+
+def sharing_cases(ctx):
+    n_sites = _own_sites_in_source()
+    with _OwnSites() as rec:
+        emitted = 0
+        for family, sources, derivs in (('frame', _base_frames(), _frame_derivations()),
+                                        ('index', _index_sources(), _index_derivations())):
+            for src_name, make_src in sources:
+                table = dict(derivs)
+                if ctx.tier == 'thorough' or src_name in ('FrameGO', 'Frame', 'IndexGO', 'IndexHierarchyGO'):
+                    table.update({k: v for k, v in _auto_derivations(make_src()).items()})
+                for dname, derive in sorted(table.items()):
+                    live, steps, problems = sharing_history(src_name, make_src, dname, derive)
+                    if live is None:
+                        ctx.count('sharing:not-applicable')
+                        continue
+                    go_involved = any(_is_go(c) for _, c in live)
+                    ctx.count(f'sharing:{family}:{src_name}', 'sharing:grown' if go_involved else 'sharing:no-grow-only-container')
+                    tags = {'container': src_name, 'derivation': dname}
+                    base = dname.replace('auto:', '')
+                    if base in ('columns-property', 'columns', 'keys') and src_name.startswith('FrameGO'):
+                        tags['finding'] = F_COLPROP
+                    if dname in ('auto:union', 'auto:intersection') and family == 'index' and 'GO' in src_name:
+                        tags['finding'] = F_SETOP
+                    desc = {'source': src_name, 'derivation': dname, 'steps': steps, 'problems': problems[:4]}
+                    emitted += 1
+                    yield Case('api:sharing-' + family, desc, py_fail='; '.join(problems[:3]) if problems else None,
+                               tags=tags, nontrivial=go_involved, key=f'{src_name}|{dname}')
+    ctx.dist['sharing:own_*-call-sites-executed'] = len({(f, l) for f, l, _, _ in rec.sites})
+    ctx.dist['sharing:own_*-call-sites-in-source'] = n_sites
+
+
+# ----------------------------------------------------------------------------- IndexHierarchyGO histories
+F_HIER_EDGE = 'C09-hier-append-outer-label-not-last'
+F_HIER_EXT = 'C09-indexhierarchygo-extend-partial'
+F_HIER_EMPTY = 'C09-indexhierarchygo-extend-on-empty'
+
+
+def _tree_lit(level):
+    """Literal of the model tree, read off the real IndexLevel tree (kernel-level, at construction only)."""
+    labels = lit.vlist(level.index.values.tolist())
+    if level.targets is None:
+        return f'(Leaf {labels})'
+    return f'(Node {labels} {lit.lst([_tree_lit(t) for t in level.targets])})'
+
+
+def _tuples_lit(rows):
+    return lit.lst([lit.vlist(list(r)) for r in rows])
+
+
+def snap_hier(ih, full):
+    rows = [tuple(_j(x) for x in r) for r in ih]          # iteration over the tree: no cache is touched
+    n = len(ih)
+    coherent = None
+    if full:
+        try:
+            vals = [tuple(r) for r in ih.values.tolist()]
+            coherent = (vals == rows and len(ih.positions) == len(rows)
+                        and all(ih.loc_to_iloc(r) == i for i, r in enumerate(rows))
+                        and all(r in ih for r in rows))
+        except Exception:  # noqa
+            coherent = False
+    return rows, n, coherent
+
+
+def _hseen_lit(snap):
+    rows, n, coherent = snap
+    c = 'None' if coherent is None else f'(Some {lit.b(coherent)})'
+    return f'(mk_hseen {_tuples_lit(rows)} {lit.z(n)} {c})'
+
+
+def _make_ih(labels, depth, go=True):
+    import static_frame as sf
+    cls = sf.IndexHierarchyGO if go else sf.IndexHierarchy
+    if not labels:
+        return cls.from_labels((), depth_reference=depth)
+    return cls.from_labels(labels)
+
+
+def hier_history(labels, depth, ops, look, model=True):
+    ih = _make_ih(labels, depth)
+    tree0 = _tree_lit(ih._levels)
+    recs, steps = [], []
+    for op, see in zip(ops, look):
+        if op[0] == 'append':
+            exc = _call(lambda: ih.append(op[1]))
+            ol = f'(HAppend {lit.vlist(list(op[1]))})'
+        elif op[0] == 'extend':
+            other = _make_ih(op[1], depth if len(op) < 3 else op[2], go=bool(len(op) > 3 and op[3]))
+            exc = _call(lambda: ih.extend(other))
+            ol = f'(HExtend (mk_hgo {_tree_lit(other._levels)} {lit.z(other.depth)}))'
+        else:
+            exc = _call(lambda: (ih.values, len(ih)))
+            ol = 'HRead'
+        try:
+            snap = snap_hier(ih, see)
+        except Exception as e:  # noqa -- a tree that cannot even be iterated
+            snap = ([('unreadable', type(e).__name__)], -1, False)
+        recs.append(f'({ol}, {_out(exc)}, {_hseen_lit(snap)})')
+        steps.append({'op': [op[0]] + [_j(x) for x in op[1:]], 'raised': None if exc is None else type(exc).__name__,
+                      'seen': {'labels': _j(snap[0]), 'len': snap[1], 'coherent': snap[2]}})
+    h = lit.lst(recs)
+    desc = {'container': 'IndexHierarchyGO', 'labels': _j(labels), 'depth': depth, 'steps': steps}
+    m = f'check_hgo_M {tree0} {lit.z(depth)} {h}' if model else None
+    s = f'check_hgo_S {lit.z(depth)} {_tuples_lit(labels)} {h}'
+    return desc, m, s
+
+
+def classify_hier_ops(labels, depth, ops):
+    """Finding class BY CONSTRUCTION (first met), from the labels given so far."""
+    cur = [tuple(x) for x in labels]
+    for op in ops:
+        if op[0] == 'read':
+            continue
+        if op[0] == 'append':
+            key = tuple(op[1])
+            if len(key) != depth:
+                continue
+            if cur:
+                last = cur[-1]
+                d = next((i for i in range(depth) if key[i] != last[i]), None)
+                if d is not None and d < depth - 1:
+                    siblings = {l[d] for l in cur if l[:d] == last[:d]}
+                    if key[d] in siblings:
+                        return F_HIER_EDGE          # found in the node on the last edge, but not its last label
+            if key not in cur:
+                cur.append(key)
+            continue
+        other = [tuple(x) for x in op[1]]
+        odepth = depth if len(op) < 3 else op[2]
+        if not other or odepth != depth:
+            continue
+        if not cur:
+            return F_HIER_EMPTY
+        outer, seen = [], set()
+        for l in other:
+            if l[0] not in seen:
+                seen.add(l[0])
+                outer.append(l[0])
+        root = []
+        for l in cur:
+            if l[0] not in root:
+                root.append(l[0])
+        for k, o in enumerate(outer):
+            if o in root:
+                if k > 0:
+                    return F_HIER_EXT
+                break
+        else:
+            cur.extend(other)
+    return None
+
+
+CORPUS_HIER = [
+    ([('a', 1), ('b', 1)], 2, [('append', ('a', 2)), ('read',)], True),
+    ([('a', 1, 'x'), ('b', 1, 'y'), ('c', 1, 'x')], 3, [('append', ('b', 1, 'y'))], True),
+    ([('a', 1), ('b', 1)], 2, [('extend', [('c', 1), ('b', 2)]), ('append', ('c', 5)), ('read',)], True),
+    ([], 2, [('extend', [('a', 1), ('a', 2)])], False),
+]
+
+
+def hier_exhaustive(ctx):
+    N = 3 if ctx.tier == 'quick' else 4
+    alpha = [('append', ('a', 2)), ('append', ('b', 1)), ('append', ('b', 2)), ('append', ('c', 1)), ('append', ('b',)),
+             ('extend', [('c', 1), ('c', 2)]), ('extend', [('d', 1), ('e', 1)]), ('extend', [('b', 7), ('f', 1)]), ('read',)]
+    for labels in ([('a', 1)], [('a', 1), ('b', 1)]):
+        for n in range(1, N + 1):
+            for ops in itertools.product(alpha, repeat=n):
+                yield labels, 2, list(ops), [i % 2 == 1 for i in range(n)]
+
+
+def hier_random(ctx, count):
+    rng = ctx.rng
+    for _ in range(count):
+        depth = rng.choice([2, 2, 3])
+        outers = ['a', 'b', 'c', 'd', 'e', 'f']
+        mids = [1, 2, 3]
+        inners = ['x', 'y', 'z'] if depth == 3 else [1, 2, 3, 4]
+
+        def rand_tree(outs):
+            out = []
+            for o in outs:
+                if depth == 2:
+                    for i in sorted(rng.sample(inners, rng.randint(1, 2))):
+                        out.append((o, i))
+                else:
+                    for m in sorted(rng.sample(mids, rng.randint(1, 2))):
+                        for i in sorted(rng.sample(inners, rng.randint(1, 2))):
+                            out.append((o, m, i))
+            return out
+        n0 = rng.randint(0, 2)
+        cur = rand_tree(outers[:n0])
+        labels = list(cur)
+        ops = []
+        nops = rng.randint(1, 6)
+        special_at = rng.randrange(nops) if rng.random() < 0.15 else -1
+        for i in range(nops):
+            r = rng.random()
+            used = []
+            for l in cur:
+                if l[0] not in used:
+                    used.append(l[0])
+            free = [o for o in outers if o not in used]
+            if i == special_at and len(used) >= 2:
+                if rng.random() < 0.6:
+                    # a label whose outer part exists but is not the last one (the finding class), fresh or duplicate
+                    o = rng.choice(used[:-1])
+                    key = (o,) + tuple(rng.choice(mids if (depth == 3 and j == 1) else inners) for j in range(1, depth))
+                    ops.append(('append', key))
+                    continue
+                if free:
+                    ops.append(('extend', rand_tree([free[0]]) + [(used[0],) + cur[0][1:]]))
+                    continue
+            if r < 0.12:
+                ops.append(('read',))
+            elif r < 0.6:
+                c = rng.random()
+                if cur and c < 0.5:
+                    last = cur[-1]
+                    if depth == 2:
+                        key = (last[0], rng.choice(inners + [9, 8]))
+                    else:
+                        key = (last[0], last[1], rng.choice(inners + ['q'])) if rng.random() < 0.6 else (last[0], rng.choice([m for m in mids + [7] if m >= last[1]]), rng.choice(inners))
+                        # a middle label found in the node but not its last one would be in the finding class
+                        if key[1] != last[1] and key[1] in {l[1] for l in cur if l[0] == last[0]}:
+                            continue
+                elif free and c < 0.85:
+                    key = (free[0],) + tuple(rng.choice(mids if (depth == 3 and j == 1) else inners) for j in range(1, depth))
+                elif cur:
+                    key = cur[-1][:-1] if rng.random() < 0.5 else cur[-1] + (1,)      # wrong depth
+                else:
+                    key = ('a',) * (depth - 1)
+                ops.append(('append', key))
+                if len(key) == depth and key not in cur:
+                    cur.append(key)
+            else:
+                c = rng.random()
+                if not cur:
+                    continue                                  # extend on an empty hierarchy: finding class, corpus only
+                if c < 0.6 and free:
+                    k = rng.randint(1, min(2, len(free)))
+                    other = rand_tree(free[:k])
+                    ops.append(('extend', other, depth, rng.random() < 0.4))
+                    cur.extend(other)
+                elif c < 0.8:
+                    other = rand_tree([used[0]] + free[:1])        # rejected at the first outer label
+                    ops.append(('extend', other))
+                else:
+                    od = 5 - depth
+                    other = [('z',) + (1,) * (od - 1)]
+                    ops.append(('extend', other, od))                # other depth
+        if not ops:
+            continue
+        look = [rng.random() < 0.6 for _ in ops]
+        look[-1] = True
+        yield labels, depth, ops, look
+
+
+def hier_cases(ctx):
+    def emit(kind, labels, depth, ops, look, model=True):
+        desc, m, s = hier_history(labels, depth, ops, look, model)
+        f = classify_hier_ops(labels, depth, ops)
+        ctx.count(f'hier:depth{depth}', f'hier:len{len(ops)}')
+        for op in ops:
+            ctx.count('hier:op:' + op[0])
+        for st in desc['steps']:
+            if st['raised']:
+                ctx.count('hier:raised:' + st['raised'])
+        tags = {'container': 'IndexHierarchyGO'}
+        if f:
+            tags['finding'] = f
+        return Case(kind, desc, m=m, s=s, tags=tags,
+                    nontrivial=any(st['raised'] is None and st['op'][0] != 'read' for st in desc['steps']))
+    for labels, depth, ops, model in CORPUS_HIER:
+        yield emit('api:IndexHierarchyGO-corpus', labels, depth, ops, [True] * len(ops), model)
+    for labels, depth, ops, look in hier_exhaustive(ctx):
+        yield emit('api:IndexHierarchyGO-exhaustive', labels, depth, ops, look)
+    for labels, depth, ops, look in hier_random(ctx, ctx.n(150, 3000)):
+        yield emit('api:IndexHierarchyGO-random', labels, depth, ops, look)
+
+
+# ----------------------------------------------------------------------------- generate(repo): decision tables
+def _u(node):
+    import ast
+    return ast.unparse(node).replace('"', "'")
+
+
+def _find_class(tree, name):
+    import ast
+    for n in tree.body:
+        if isinstance(n, ast.ClassDef) and n.name == name:
+            return n
+    raise ValueError(f'class {name} not found')
+
+
+def _find_def(body, name):
+    import ast
+    for n in body:
+        if isinstance(n, ast.FunctionDef) and n.name == name:
+            return n
+    return None
+
+
+def _strip_doc(body):
+    import ast
+    if body and isinstance(body[0], ast.Expr) and isinstance(getattr(body[0], 'value', None), ast.Constant) and isinstance(body[0].value.value, str):
+        return body[1:]
+    return body
+
+
+CLASSES = ('Frame', 'FrameGO', 'FrameHE')
+KCLS = {'Frame': 'KFrame', 'FrameGO': 'KFrameGO', 'FrameHE': 'KFrameHE'}
+
+
+def _flag_table(node, what):
+    """own_* keyword value -> {dst class: bool}: a constant, or `constructor is X` / `constructor is not X`."""
+    import ast
+    if isinstance(node, ast.Constant) and isinstance(node.value, bool):
+        return {c: node.value for c in CLASSES}
+    if (isinstance(node, ast.Compare) and len(node.ops) == 1 and isinstance(node.left, ast.Name) and node.left.id == 'constructor'
+            and isinstance(node.comparators[0], ast.Name) and node.comparators[0].id in CLASSES):
+        x = node.comparators[0].id
+        if isinstance(node.ops[0], ast.Is):
+            return {c: c == x for c in CLASSES}
+        if isinstance(node.ops[0], ast.IsNot):
+            return {c: c != x for c in CLASSES}
+    raise ValueError(f'{what}: unsupported flag expression {_u(node)}')
+
+
+def _to_frame_site(cls_node):
+    """The constructor call of <class>._to_frame: is the block list copied, which members are handed over, the own_* flags."""
+    import ast
+    fn = _find_def(cls_node.body, '_to_frame')
+    if fn is None:
+        return None
+    body = _strip_doc(fn.body)
+    if len(body) != 1 or not isinstance(body[0], ast.Return) or not isinstance(body[0].value, ast.Call):
+        raise ValueError(f'{cls_node.name}._to_frame: expected a single `return constructor(...)`')
+    call = body[0].value
+    if _u(call.func) != 'constructor' or len(call.args) != 1:
+        raise ValueError(f'{cls_node.name}._to_frame: expected constructor(<blocks>, ...)')
+    data = _u(call.args[0])
+    if data == 'self._blocks.copy()':
+        copied = True
+    elif data == 'self._blocks':
+        copied = False
+    else:
+        raise ValueError(f'{cls_node.name}._to_frame: unsupported data argument {data}')
+    kws = {k.arg: k.value for k in call.keywords}
+    if _u(kws.get('columns', ast.Constant(None))) not in ('self._columns', 'self.columns'):
+        raise ValueError(f'{cls_node.name}._to_frame: columns is not self._columns')
+    out = {'copied': copied}
+    for flag in ('own_data', 'own_index', 'own_columns'):
+        out[flag] = _flag_table(kws[flag], f'{cls_node.name}._to_frame {flag}') if flag in kws else {c: False for c in CLASSES}
+    return out
+
+
+def _conv_method(cls_node, name):
+    """to_frame / to_frame_go / to_frame_he of a class: 'self' or the class passed to _to_frame (None: inherited)."""
+    import ast
+    fn = _find_def(cls_node.body, name)
+    if fn is None:
+        return None
+    body = _strip_doc(fn.body)
+    if len(body) != 1 or not isinstance(body[0], ast.Return):
+        raise ValueError(f'{cls_node.name}.{name}: expected a single return')
+    v = _u(body[0].value)
+    if v == 'self':
+        return 'self'
+    for c in CLASSES:
+        if v == f'self._to_frame({c})':
+            return c
+    raise ValueError(f'{cls_node.name}.{name}: unsupported body {v}')
+
+
+def _class_attr(cls_node, name):
+    import ast
+    for n in cls_node.body:
+        if isinstance(n, ast.Assign) and len(n.targets) == 1 and _u(n.targets[0]) == name:
+            return _u(n.value)
+        if isinstance(n, ast.AnnAssign) and _u(n.target) == name and n.value is not None:
+            return _u(n.value)
+    return None
+
+
+def _static_of(index_tree, container_tree, cls_name, depth=0):
+    """STATIC of an index class: own body, else the first base that defines it, else ContainerBase's default."""
+    import ast
+    if depth > 6:
+        raise ValueError('STATIC lookup too deep')
+    try:
+        node = _find_class(index_tree, cls_name)
+    except ValueError:
+        node = None
+    if node is not None:
+        v = _class_attr(node, 'STATIC')
+        if v is not None:
+            return {'True': True, 'False': False}[v]
+        for b in node.bases:
+            r = _static_of(index_tree, container_tree, _u(b), depth + 1)
+            if r is not None:
+                return r
+        return None
+    for n in container_tree.body:
+        if isinstance(n, ast.ClassDef):
+            v = _class_attr(n, 'STATIC')
+            if v is not None and depth > 0 and cls_name in ('IndexBase', 'ContainerOperand', 'ContainerBase'):
+                return {'True': True, 'False': False}[v]
+    return None
+
+
+ACTIONS = {
+    'value': 'ASame', 'index': 'ASame',
+    'value._IMMUTABLE_CONSTRUCTOR(value)': 'AImmutable', 'index._IMMUTABLE_CONSTRUCTOR(index)': 'AImmutable',
+    'value.copy()': 'ACopy', 'value.__class__(value)': 'ACopy', 'index.__class__(index)': 'ACopy', 'index.copy()': 'ACopy',
+    'value._MUTABLE_CONSTRUCTOR(value)': 'AMutable', 'index._MUTABLE_CONSTRUCTOR(index)': 'AMutable',
+}
+
+
+def _ret_action(stmts, what):
+    """The action of a statement list that ends in `return <expr>` (nothing before it)."""
+    import ast
+    stmts = _strip_doc(stmts)
+    if len(stmts) == 1 and isinstance(stmts[0], ast.Return):
+        v = _u(stmts[0].value)
+        if v in ACTIONS:
+            return ACTIONS[v]
+        raise ValueError(f'{what}: unsupported return {v}')
+    raise ValueError(f'{what}: expected a single return')
+
+
+def _if_not_static(stmts, var, what):
+    """`if not <var>.STATIC: return A` followed by `return B`  ->  (action for mutable, action for static);
+    or `if <var>.STATIC: return B` followed by `return A`."""
+    import ast
+    stmts = _strip_doc(stmts)
+    if len(stmts) == 2 and isinstance(stmts[0], ast.If) and not stmts[0].orelse:
+        t = _u(stmts[0].test)
+        a = _ret_action(stmts[0].body, what)
+        b = _ret_action(stmts[1:], what)
+        if t == f'not {var}.STATIC':
+            return a, b
+        if t == f'{var}.STATIC':
+            return b, a
+    raise ValueError(f'{what}: unsupported shape')
+
+
+def generate(repo):
+    """Decision tables of the code that decides sharing, read off the AST of /repo (fail closed)."""
+    import ast
+    import os
+    core = os.path.join(repo, 'static_frame', 'core')
+
+    def parse(fn):
+        with open(os.path.join(core, fn)) as f:
+            return ast.parse(f.read())
+    frame_t, cu_t, index_t, tb_t, cont_t = (parse(x) for x in ('frame.py', 'container_util.py', 'index.py', 'type_blocks.py', 'container.py'))
+    nodes = {c: _find_class(frame_t, c) for c in CLASSES}
+
+    # --- _to_frame sites and the public conversion methods
+    sites = {}
+    for c in CLASSES:
+        s = _to_frame_site(nodes[c])
+        if s is None:
+            raise ValueError(f'{c}._to_frame not found')
+        sites[c] = s
+    conv = {}
+    meth = {'Frame': 'to_frame', 'FrameGO': 'to_frame_go', 'FrameHE': 'to_frame_he'}
+    for c in CLASSES:
+        for dst in CLASSES:
+            r = _conv_method(nodes[c], meth[dst])
+            if r is None:                      # inherited from Frame
+                r = _conv_method(nodes['Frame'], meth[dst])
+            if r is None:
+                raise ValueError(f'{c}.{meth[dst]} not found')
+            if r != 'self' and r != dst:
+                raise ValueError(f'{c}.{meth[dst]} converts to {r}')
+            conv[(c, dst)] = (r == 'self')
+
+    # --- Frame.__init__
+    init = _find_def(nodes['Frame'].body, '__init__')
+    own_data_takes = rebuilds = frame_copies = own_cols_takes = static_check = index_static_check = None
+    ifoc_default = None
+    for n in ast.walk(init):
+        if isinstance(n, ast.If):
+            t = _u(n.test)
+            if t == 'data.__class__ is TypeBlocks':
+                inner = [x for x in n.body if isinstance(x, ast.If)]
+                if len(inner) != 1 or _u(inner[0].test) != 'own_data':
+                    raise ValueError('Frame.__init__: TypeBlocks branch without `if own_data`')
+                a = [_u(x) for x in inner[0].body if isinstance(x, ast.Assign)]
+                b = [_u(x) for x in inner[0].orelse if isinstance(x, ast.Assign)]
+                if a == ['self._blocks = data']:
+                    own_data_takes = True
+                else:
+                    raise ValueError(f'Frame.__init__: own_data branch is {a}')
+                if b == ['self._blocks = TypeBlocks.from_blocks(data._blocks)']:
+                    rebuilds = True
+                elif b == ['self._blocks = data']:
+                    rebuilds = False
+                else:
+                    raise ValueError(f'Frame.__init__: not-own_data branch is {b}')
+            elif t == 'isinstance(data, Frame)':
+                a = [_u(x) for x in n.body if isinstance(x, ast.Assign) and _u(x).startswith('self._blocks')]
+                if a == ['self._blocks = data._blocks.copy()']:
+                    frame_copies = True
+                elif a == ['self._blocks = data._blocks']:
+                    frame_copies = False
+                else:
+                    raise ValueError(f'Frame.__init__: Frame branch is {a}')
+            elif t == 'own_columns':
+                a = [_u(x) for x in n.body if isinstance(x, ast.Assign)]
+                if 'self._columns = columns' not in a:
+                    raise ValueError(f'Frame.__init__: own_columns branch is {a}')
+                own_cols_takes = True
+                rest = _u(n)
+                if 'index_from_optional_constructor(columns, default_constructor=self._COLUMNS_CONSTRUCTOR' not in rest:
+                    raise ValueError('Frame.__init__: columns are not passed through index_from_optional_constructor with the class default')
+                ifoc_default = True
+            elif t == 'self._COLUMNS_CONSTRUCTOR.STATIC != self._columns.STATIC':
+                static_check = any(isinstance(x, ast.Raise) for x in n.body)
+            elif t == 'not self._index.STATIC':
+                index_static_check = any(isinstance(x, ast.Raise) for x in n.body)
+    if None in (own_data_takes, rebuilds, frame_copies, own_cols_takes, ifoc_default):
+        raise ValueError('Frame.__init__: expected branches not found')
+    static_check = bool(static_check)
+    index_static_check = bool(index_static_check)
+
+    # --- _COLUMNS_CONSTRUCTOR of each class and whether it is static
+    cols_static = {}
+    for c in CLASSES:
+        ctor = _class_attr(nodes[c], '_COLUMNS_CONSTRUCTOR') or _class_attr(nodes['Frame'], '_COLUMNS_CONSTRUCTOR')
+        st = _static_of(index_t, cont_t, ctor)
+        if st is None:
+            raise ValueError(f'cannot resolve STATIC of {ctor}')
+        cols_static[c] = st
+
+    # --- index_from_optional_constructor (container_util.py)
+    fn = _find_def(cu_t.body, 'index_from_optional_constructor')
+    ifoc = None
+    for n in _strip_doc(fn.body):
+        if isinstance(n, ast.If) and _u(n.test) == 'isinstance(value, IndexBase)':
+            inner = _strip_doc(n.body)
+            if len(inner) == 1 and isinstance(inner[0], ast.If) and _u(inner[0].test) == 'is_static(default_constructor)':
+                s_mut, s_stat = _if_not_static(inner[0].body, 'value', 'index_from_optional_constructor (static default)')
+                m_mut, m_stat = _if_not_static(inner[0].orelse, 'value', 'index_from_optional_constructor (mutable default)')
+                ifoc = {(True, False): s_mut, (True, True): s_stat, (False, False): m_mut, (False, True): m_stat}
+    if ifoc is None:
+        raise ValueError('index_from_optional_constructor: unsupported shape')
+
+    # --- mutable_immutable_index_filter / immutable_index_filter (index.py)
+    imm = _find_def(index_t.body, 'immutable_index_filter')
+    i_mut, i_stat = _if_not_static(imm.body, 'index', 'immutable_index_filter')
+    mif = _find_def(index_t.body, 'mutable_immutable_index_filter')
+    body = _strip_doc(mif.body)
+    if not (len(body) == 3 and isinstance(body[0], ast.If) and _u(body[0].test) == 'target_static'
+            and _u(body[0].body[0]) == 'return immutable_index_filter(index)'):
+        raise ValueError('mutable_immutable_index_filter: unsupported shape')
+    g_mut, g_stat = _if_not_static(body[1:], 'index', 'mutable_immutable_index_filter')
+    miif = {(True, False): i_mut, (True, True): i_stat, (False, False): g_mut, (False, True): g_stat}
+
+    # --- TypeBlocks.__copy__
+    tbc = _find_def(_find_class(tb_t, 'TypeBlocks').body, '__copy__')
+    body = _strip_doc(tbc.body)
+    if len(body) != 1 or not isinstance(body[0], ast.Return) or not isinstance(body[0].value, ast.Call):
+        raise ValueError('TypeBlocks.__copy__: unsupported shape')
+    kws = {k.arg: _u(k.value) for k in body[0].value.keywords}
+    fresh = {'blocks': {'[b for b in self._blocks]': True, 'list(self._blocks)': True, 'self._blocks.copy()': True, 'self._blocks': False},
+             'dtypes': {'self._dtypes.copy()': True, 'list(self._dtypes)': True, 'self._dtypes': False},
+             'index': {'self._index.copy()': True, 'list(self._index)': True, 'self._index': False}}
+    tb_fresh = True
+    for k, table in fresh.items():
+        if kws.get(k) not in table:
+            raise ValueError(f'TypeBlocks.__copy__: unsupported {k}={kws.get(k)}')
+        tb_fresh = tb_fresh and table[kws[k]]
+
+    def b(x):
+        return 'true' if x else 'false'
+
+    def by_cls(name, f, ret='bool'):
+        arms = ' '.join(f'| {KCLS[c]} => {f(c)}' for c in CLASSES)
+        return f'Definition {name} (k : fcls) : {ret} := match k with {arms} end.\n'
+
+    def by_pair(name, f):
+        arms = ' '.join('| %s => match dst with %s end' % (KCLS[c], ' '.join(f'| {KCLS[d]} => {f(c, d)}' for d in CLASSES)) for c in CLASSES)
+        return f'Definition {name} (src dst : fcls) : bool := match src with {arms} end.\n'
+
+    def by_bools(name, table):
+        return (f'Definition {name} (target_static value_static : bool) : idx_action :=\n'
+                f'  match target_static, value_static with\n'
+                f'  | true, true => {table[(True, True)]} | true, false => {table[(True, False)]}\n'
+                f'  | false, true => {table[(False, True)]} | false, false => {table[(False, False)]}\n  end.\n')
+    text = ('(* GENERATED on every run by tools/sfv/props/c09.py:generate from the AST of\n'
+            '   static_frame/core/frame.py (Frame/FrameGO/FrameHE._to_frame, to_frame*, Frame.__init__, _COLUMNS_CONSTRUCTOR),\n'
+            '   container_util.py (index_from_optional_constructor), index.py (mutable_immutable_index_filter, STATIC),\n'
+            '   type_blocks.py (TypeBlocks.__copy__).  Do not edit. *)\n'
+            'Require Import SF.Prelude SF.GrowOnlyShare.\n\n')
+    text += by_cls('gen_to_frame_blocks_copied', lambda c: b(sites[c]['copied']))
+    for flag in ('own_data', 'own_index', 'own_columns'):
+        text += by_pair(f'gen_to_frame_{flag}', lambda c, d, flag=flag: b(sites[c][flag][d]))
+    text += by_pair('gen_conv_returns_self', lambda c, d: b(conv[(c, d)]))
+    text += by_cls('gen_columns_static', lambda c: b(cols_static[c]))
+    text += f'Definition gen_init_own_data_takes : bool := {b(own_data_takes)}.\n'
+    text += f'Definition gen_init_copy_rebuilds : bool := {b(rebuilds)}.\n'
+    text += f'Definition gen_init_frame_data_copies : bool := {b(frame_copies)}.\n'
+    text += f'Definition gen_init_own_columns_takes : bool := {b(own_cols_takes)}.\n'
+    text += f'Definition gen_init_static_check : bool := {b(static_check)}.\n'
+    text += f'Definition gen_init_index_static_check : bool := {b(index_static_check)}.\n'
+    text += f'Definition gen_tb_copy_fresh : bool := {b(tb_fresh)}.\n'
+    text += by_bools('gen_ifoc', ifoc)
+    text += by_bools('gen_miif', miif)
+    return {'Gen/Gen_c09.v': text}
+
+# ----------------------------------------------------------------------------- worlds: conversions x growth
+KNAME = {'Frame': 'KFrame', 'FrameGO': 'KFrameGO', 'FrameHE': 'KFrameHE'}
+
+
+def _fview_lit(fr):
+    cols = []
+    for j in range(fr.shape[1]):
+        a = fr._blocks._extract_array(column_key=j)
+        cols.append(f'({lit.dtype(a.dtype)}, {lit.vlist(lit.array_vals(a))})')
+    return f'({KNAME[type(fr).__name__]}, {lit.vlist(fr.columns.values.tolist())}, {lit.lst(cols)})'
+
+
+def _same_pairs(objs):
+    out = []
+    for i in range(len(objs)):
+        for j in range(i + 1, len(objs)):
+            if objs[i] is objs[j]:
+                out.append((i, j))
+    return out
+
+
+def _wseen_lit(live):
+    pc = _same_pairs([f._columns for f in live])
+    pb = _same_pairs([f._blocks for f in live])
+    pl = lambda ps: lit.lst([f'({lit.z(a)}, {lit.z(b)})' for a, b in ps])
+    return f'(mk_wseen {lit.lst([_fview_lit(f) for f in live])} {pl(pc)} {pl(pb)})', pc, pb
+
+
+def world_history(cls_name, init, ops):
+    import static_frame as sf
+    classes = {'Frame': sf.Frame, 'FrameGO': sf.FrameGO, 'FrameHE': sf.FrameHE}
+    cols = [_arr(dt, vs) for dt, vs in init['cols']]
+    f0 = zoo.frame_from_columns(cols, tuple(tuple(x) for x in init['layout']), index=init['rows'],
+                                columns=init['labels'], cls=classes[cls_name])
+    auto = init['labels'] is None
+    labels0 = list(range(len(init['cols']))) if auto else list(init['labels'])
+    blocks0 = lit.lst([_blk_lit(b) for b in f0._blocks._blocks])
+    live = [f0]
+    recs, steps = [], []
+    prev_views = lit.lst([_fview_lit(f0)])
+    failed_conversion = False
+    for op in ops:
+        if failed_conversion:
+            break          # later steps name frames that do not exist
+        kind = op[0]
+        if kind == 'grow':
+            i, gop = op[1], op[2]
+            exc, gl = apply_frame_op(live[i], gop)
+            ol = f'(WGrow {i}%nat {gl})'
+            what = {'grow': i, 'op': _j_op(gop)}
+        else:
+            i, dst = op[1], op[2]
+            if kind == 'to':
+                meth = {'Frame': 'to_frame', 'FrameGO': 'to_frame_go', 'FrameHE': 'to_frame_he'}[dst]
+                try:
+                    res, exc = getattr(live[i], meth)(), None
+                except Exception as e:  # noqa
+                    res, exc = None, e
+                ol = f'(WToFrame {i}%nat {KNAME[dst]})'
+                what = {'call': f'live[{i}].{meth}()'}
+            else:
+                try:
+                    res, exc = classes[dst](live[i]), None
+                except Exception as e:  # noqa
+                    res, exc = None, e
+                ol = f'(WConstruct {i}%nat {KNAME[dst]})'
+                what = {'call': f'sf.{dst}(live[{i}])'}
+            if res is not None:
+                live.append(res)
+            else:
+                failed_conversion = True
+        seen, pc, pb = _wseen_lit(live)
+        recs.append(f'({ol}, {_out(exc)}, {seen})')
+        what.update({'raised': None if exc is None else type(exc).__name__, 'live': [type(f).__name__ for f in live],
+                     'same_columns_object': pc, 'same_blocks_object': pb,
+                     'columns': [_j(f.columns.values.tolist()) for f in live]})
+        steps.append(what)
+    h = lit.lst(recs)
+    desc = {'container': 'world of frames', 'first': cls_name,
+            'init': {'rows': _j(init['rows']), 'columns': 'auto' if auto else _j(init['labels']),
+                     'data': [[str(np.dtype(dt)), _j(vs)] for dt, vs in init['cols']]},
+            'steps': steps}
+    m = (f'check_world_M {KNAME[cls_name]} {lit.b(auto)} {lit.vlist(init["rows"])} {lit.vlist(labels0)} {blocks0} {h}')
+    s = f'check_world_S {prev_views} {h}'
+    return desc, m, s
+
+
+def world_cases(ctx):
+    rng = ctx.rng
+    i8 = np.int64
+    init0 = {'rows': ['x', 'y'], 'labels': ['a', 'b'], 'cols': [(i8, [1, 2]), (np.float64, [0.5, 1.5])], 'layout': [(1, False), (1, False)]}
+    classes = ['Frame', 'FrameGO', 'FrameHE']
+
+    def grow_op(k):
+        return {'op': 'set', 'key': f'n{k}', 'value': ('arr', i8, [k, k + 1])}
+
+    def emit(kind, cls_name, init, ops):
+        desc, m, s = world_history(cls_name, init, ops)
+        ctx.count('world:first:' + cls_name, f'world:len{len(ops)}')
+        for op in ops:
+            ctx.count('world:op:' + op[0] + (':' + op[2] if op[0] != 'grow' else ''))
+        return Case(kind, desc, m=m, s=s, tags={'container': 'world'}, nontrivial=any(o[0] == 'grow' for o in ops))
+    # exhaustive: every source class x every conversion x (grow the source / the result, when grow-only) x a second conversion
+    for src in classes:
+        for kind in ('to', 'ctor'):
+            for dst in classes:
+                for kind2 in ('to', 'ctor'):
+                    for dst2 in classes:
+                        ops = [(kind, 0, dst)]
+                        k = 0
+                        if src == 'FrameGO':
+                            ops.append(('grow', 0, grow_op(k)))
+                            k += 1
+                        if dst == 'FrameGO':
+                            ops.append(('grow', 1, grow_op(k)))
+                            k += 1
+                        ops.append((kind2, 1, dst2))
+                        if dst2 == 'FrameGO':
+                            ops.append(('grow', 2, grow_op(k)))
+                            k += 1
+                        if src == 'FrameGO':
+                            ops.append(('grow', 0, grow_op(k)))
+                        yield emit('api:world-exhaustive', src, init0, ops)
+    # random worlds
+    for _ in range(ctx.n(60, 1500)):
+        nrows = rng.choice([1, 2, 3])
+        rows = ['x', 'y', 'z'][:nrows]
+        ncols = rng.randint(0, 3)
+        cols = [_col(rng, nrows) for _ in range(ncols)]
+        auto = rng.random() < 0.25
+        init = {'rows': rows, 'labels': None if auto else ['a', 'b', 'c'][:ncols], 'cols': cols,
+                'layout': _rand_layout(rng, cols) if cols else []}
+        src = rng.choice(classes)
+        live_cls = [src]
+        ops = []
+        k = 0
+        for _ in range(rng.randint(2, 8)):
+            gos = [i for i, c in enumerate(live_cls) if c == 'FrameGO']
+            if gos and rng.random() < 0.5:
+                i = rng.choice(gos)
+                r = rng.random()
+                if r < 0.6:
+                    g = {'op': 'set', 'key': f'n{k}', 'value': ('arr',) + _col(rng, nrows)}
+                elif r < 0.8:
+                    cs = [_col(rng, nrows), _col(rng, nrows)]
+                    g = {'op': 'ext_frame', 'fidx': rows, 'fcols': [f'n{k}', f'm{k}'], 'cols': cs, 'layout': _rand_layout(rng, cs)}
+                else:
+                    g = {'op': 'set', 'key': f'n{k}', 'value': ('arr',) + _col(rng, nrows + 1)}     # rejected
+                k += 1
+                ops.append(('grow', i, g))
+            else:
+                i = rng.randrange(len(live_cls))
+                dst = rng.choice(classes)
+                ops.append((rng.choice(['to', 'ctor']), i, dst))
+                live_cls.append(dst)
+        yield emit('api:world-random', src, init, ops)
+
+
 def cases(ctx):
     yield from index_cases(ctx)
+    yield from frame_cases(ctx)
+    yield from hier_cases(ctx)
+    yield from world_cases(ctx)
+    yield from sharing_cases(ctx)
